@@ -321,6 +321,78 @@ def cursor_rule(ctx):
     return obs
 
 
+def wave10_rules(ctx):
+    """obligations added after the tenth wave of seeded changes"""
+    import guards as gd
+    ob = ctx.ob
+    tc = ctx.tc
+    obs = []
+    # (1) where the expression parser decides by the next character, the catch-all case is the failing one: it reports and gives
+    #     up; only listed characters are accepted
+    n1, bad1 = 0, []
+    for f in tc.fns:
+        if not f.body or f.module[:2] != ["parse", "expr"]:
+            continue
+        for m in sir.walk(f.body):
+            if m.get("k") != "match":
+                continue
+            sc = sir.strip_ref(m["e"])
+            if sc.get("k") == "path" and len(sc["segs"]) == 1:
+                inits = [l_["init"] for l_ in sir.walk(f.body) if l_.get("k") == "local" and l_["pat"].get("name") == sc["segs"][0] and l_.get("init") is not None]
+                sc = inits[-1] if inits else sc
+            if not any(x.get("k") == "mcall" and x["m"] in ("peek", "peek_n", "peek_chars") for x in sir.walk(sc)):
+                continue
+            if not any("'" in sir.pat_str(a["pat"]) for a in m["arms"]):
+                continue
+            for a in m["arms"]:
+                if a["pat"].get("k") == "p_wild":
+                    n1 += 1
+                    rej = any(x.get("k") == "mcall" and x["m"].startswith("add_warning") for x in sir.walk(a["body"])) or any(x.get("k") in ("return", "break") for x in sir.walk(a["body"]))
+                    if not rej:
+                        bad1.append("%s: the catch-all case of the match on `%s` accepts" % (f.name, sir.expr_str(m["e"])[:20]))
+    obs.append(ob("C15.silent/lookahead-catch-all", False if bad1 else True if n1 >= 2 else None, "parse/expr.rs", "; ".join(bad1[:2]) if bad1 else "%d look-ahead decisions, each with a failing catch-all" % n1,
+                  witness=None if not bad1 else "{{ a, b junk }} is accepted without a diagnostic"))
+    # (2) an end tag that names another element does not close this one: the name comparison is skipped only for an end tag without
+    #     a name (which has been reported already)
+    for f in tc.fns:
+        if not f.body or f.module[:2] != ["parse", "tag"] or f.name != "parse" or f.base != "Element":
+            continue
+        G = gd.guards_of(f.body)
+        for r in sir.walk(f.body, into_closures=True):
+            if not (r.get("k") == "return" and r.get("e") is not None and sir.expr_str(r["e"]).strip() == "None"):
+                continue
+            conds = [(sj, pl) for kd, sj, pl in G.get(id(r), []) if kd == "cond"]
+            cmp_ = [(sj, pl) for sj, pl in conds if sj.get("k") == "binary" and sj.get("op") in ("!=", "==") and "end_tag_name" in sir.expr_str(sj) and "tag_name" in sir.expr_str(sj).replace("end_tag_name", "")]
+            if not cmp_:
+                continue
+            others = [(sj, pl) for sj, pl in conds if "end_tag_name" in sir.expr_str(sj) and not any(sj is c_[0] for c_ in cmp_)]
+            verdict, why = True, "an end tag with a name closes the element only when the names are equal"
+            for sj, pl in others:
+                et = sir.emptiness_test(sj)
+                if et is None:
+                    t_ = sir.expr_str(sj).replace(" ", "")
+                    mm = re.search(r"\.len\(\)(>=?|!=)(\d+)", t_)
+                    if mm and not (mm.group(1) in (">", "!=") and mm.group(2) == "0") and not (mm.group(1) == ">=" and mm.group(2) == "1"):
+                        verdict, why = False, "the name comparison also depends on `%s`: short names are not compared" % sir.expr_str(sj)[:40]
+                    else:
+                        verdict, why = None, "the name comparison also depends on `%s`: not decided" % sir.expr_str(sj)[:40]
+            obs.append(ob("C15.kinds/end-tag-name", verdict, ctx.where(f), why, witness=None if verdict is not False else "<view><text>hi</b></view> parses without a diagnostic"))
+            break
+    # (3) a `<wxs src>` element is reported for content only when there is content: blank text between its tags is not content
+    for f in tc.fns:
+        if not f.body or f.module[:2] != ["parse", "tag"]:
+            continue
+        G = None
+        for n in sir.walk(f.body):
+            if n.get("k") == "mcall" and n["m"] == "add_warning" and n["args"] and sir.expr_str(n["args"][0]).endswith("ChildNodesNotAllowed") and len(n["args"]) > 1 and "content" in sir.expr_str(n["args"][1]):
+                G = G or gd.guards_of(f.body)
+                conds = [sj for kd, sj, pl in G.get(id(n), []) if kd == "cond" and "content" in sir.expr_str(sj)]
+                trimmed = any(x.get("k") == "mcall" and x["m"] in ("trim", "trim_matches", "trim_start", "trim_start_matches", "chars", "bytes", "find", "any", "all") for sj in conds for x in sir.walk(sj))
+                obs.append(ob("C15.clean/script-content-blank", bool(conds) and trimmed, ctx.where(f), "script content is reported only when something other than white space stands between the tags: %s" % trimmed,
+                              witness=None if trimmed else "<wxs module=\"m\" src=\"./m.wxs\">\n</wxs> (well-formed) is flagged at Error level"))
+    return obs
+
+
 def wave9_rules(ctx):
     """obligations added after the ninth wave of seeded changes"""
     import guards as gd
@@ -508,4 +580,5 @@ def run(ctx):
     obs += cursor_rule(ctx)
     obs += wave8_rules(ctx)
     obs += wave9_rules(ctx)
+    obs += wave10_rules(ctx)
     return obs
